@@ -306,3 +306,30 @@ PLANS["C15"] = {
             "produced at least one arbitrary-precision value",
     "assumptions": ["decimal strings printed by get_str are converted to limb sequences by the harness (base conversion is trusted)"],
 }
+
+PLANS["C25"] = {
+    "pre": lambda: driver_build(("rel", "tsan")),
+    "flavours": ["rel", "tsan"],
+    "jobs": lambda seed, tier: spread(seed, "C25", N(tier, 36, 400), ["QF_BOOL", "QF_UF", "QF_LRA", "QF_LIA", "QF_IDL", "QF_UFLRA"], "stop", max_k=N(tier, 25, 60)) +
+                               spread(seed, "C25t", N(tier, 10, 150), ["QF_BOOL", "QF_LRA", "QF_UF", "QF_LIA"], "stop", max_k=2, threads=N(tier, 6, 15), flavour="tsan"),
+    "mc": [{"module": "MC_Stop"}],
+    "remap": lambda v: "C25" if (v.get("kind") == "stop" and v.get("p") in ("C01", "C02", "C04", "C05", "C18")) else v.get("p"),
+    "per_batch": 3,
+    "rule": "for small satisfiable and unsatisfiable instances the poll points of check() are counted; then a local and a global stop request "
+            "is issued synchronously at every poll point 1..K (every moment at which the engine can observe the flag), and from a second thread "
+            "at random delays under ThreadSanitizer; the answer must be unknown or the answer the kernel / the undisturbed run gives; "
+            "non-trivial = at least two poll points and a definitive baseline answer",
+}
+
+PLANS["C24"] = {
+    "pre": lambda: driver_build(("rel", "tsan")),
+    "flavours": ["rel", "tsan"],
+    "jobs": lambda seed, tier: spread(seed, "C24", N(tier, 24, 300), ["-"], "threads", rounds=N(tier, 4, 10)) +
+                               spread(seed, "C24t", N(tier, 8, 100), ["-"], "threads", rounds=2, flavour="tsan", threads=3),
+    "mc": [{"module": "MC_SharedPool_perthread"}, {"module": "MC_SharedPool_locked"}],
+    "remap": lambda v: "C24" if (v.get("kind") == "thread" and v.get("p") in ("C01", "C02", "C04", "C05", "C18")) else v.get("p"),
+    "per_batch": 2,
+    "rule": "2-8 solver instances (own Logic, SMTConfig, MainSolver each) started together in concurrent threads on LRA/LIA/UF problems with "
+            "coefficients beyond 2^64, several rounds; every thread's answer is compared with its solo run (memo of Script_Trace) and, where the "
+            "numbers are small, with the kernel; the same under ThreadSanitizer; non-trivial = a definitive answer was compared",
+}
